@@ -360,6 +360,52 @@ def slice_guard_rule(F, R):
                    "compares that position with the payload's length: an out-of-range argument is a bounds-check panic inside "
                    "the native frame (the host aborts) instead of an error value" % (fn.short(), b["line"]),
                    fn.loc(b["line"]), sample=True)
+            # a position that is a SUM of two argument-derived values: bounding each addend does not bound the sum — the sum
+            # itself (the result of the addition) has to be what a dominating comparison looks at
+            if guarded:
+                sums = []
+                for blk2 in fn.blocks:
+                    for e in blk2["e"]:
+                        if e[0] == "binop" and e[1] in ("Add", "AddWithOverflow", "AddUnchecked") and e[2] == "usize" and \
+                                str(e[5]).startswith("_") and str(e[6]).startswith("_"):
+                            a_, b2_ = lib.TOK.findall(e[5]), lib.TOK.findall(e[6])
+                            if a_ and b2_ and all(any(t in ts for t in (_origins(fn, x, maps) | {x})) for x in (a_[0], b2_[0])):
+                                sums.append((e[5], e[6], e[3]))
+                # which of them feed the position
+                feeding = []
+                for blk2 in fn.blocks:
+                    for e in blk2["e"]:
+                        if e[0] == "der" and len(e) >= 5 and e[3] in ("Add", "AddWithOverflow", "AddUnchecked") and e[1].split(".")[0] in {o.split(".")[0] for o in org}:
+                            opnds = [x for x in lib.TOK.findall(lib._norm(e[2]))]
+                            if any((sa.startswith(opnds[0]) or sb_.startswith(opnds[0])) for sa, sb_, _ in sums if opnds):
+                                feeding.append(e[1].split(".")[0])
+                if feeding:
+                    covered = False
+                    cmp_locals = {}
+                    for blk2 in fn.blocks:
+                        for e in blk2["e"]:
+                            if e[0] == "der" and len(e) >= 5 and e[3] in ("Lt", "Le", "Gt", "Ge"):
+                                cmp_locals.setdefault(e[1], set()).update(lib.TOK.findall(lib._norm(e[2])))
+                    for sb in dom[i]:
+                        blk = fn.blocks[sb]
+                        if blk["k"] == "switch" and blk["on"] == "bool":
+                            loc = re.match(r"_\d+", blk.get("place", "").strip("()*"))
+                            if loc:
+                                for c_ in [loc.group(0)] + [x for x in _origins(fn, loc.group(0), maps) if x in cmp_locals]:
+                                    for t in cmp_locals.get(c_, ()):
+                                        if {o.split(".")[0] for o in _origins(fn, t, maps)} & set(feeding) or t.split(".")[0] in feeding:
+                                            covered = True
+                        if blk["k"] == "assert":
+                            pass
+                    if not covered and any(re.search(r"::(min|clamp|get|checked_add|saturating_sub)$", maps[2][o.split(".")[0]]["callee"])
+                                           for o in org if o.split(".")[0] in maps[2]):
+                        covered = True
+                    R.inst("C07.s", "%s / %s: a position that is a sum of argument-derived values is compared as a sum" % (
+                        fn.short(), lib.split_path(b["callee"])[-1]), covered,
+                           "%s indexes a payload at a position that adds two values computed from its arguments (line %s); each "
+                           "addend is bounded on its own, but no dominating comparison looks at the sum: start + count can run "
+                           "past the end although start and count are each in range — a bounds panic inside the native frame" % (
+                               fn.short(), b["line"]), fn.loc(b["line"]), sample=True)
             if guarded and relations:
                 elem = bool(re.search(ELEM_RX, b["callee"])) and not is_range
                 good = {"Lt"} if elem else {"Lt", "Le"}
